@@ -1,5 +1,8 @@
 use std::io::{Seek, SeekFrom, Write};
 
+use tracing::warn;
+
+use crate::bsp::{BspAxisType, BspNodeExt};
 use crate::chunk::ChunkHeader;
 use crate::error::Result;
 use crate::parser::chunks;
@@ -927,41 +930,41 @@ impl WmoWriter {
         header.write(writer)?;
 
         for node in nodes {
-            // Write plane normal and flags packed into first float
-            let plane_flags;
-            let plane_normal_x;
-
-            // Encode the normal into the first float and flags
-            if node.plane.normal.x.abs() > 0.999 {
-                plane_flags = 0; // X axis
-                plane_normal_x = f32::from_bits(plane_flags);
-            } else if node.plane.normal.y.abs() > 0.999 {
-                plane_flags = 1; // Y axis
-                plane_normal_x = f32::from_bits(plane_flags);
-            } else if node.plane.normal.z.abs() > 0.999 {
-                plane_flags = 2; // Z axis
-                plane_normal_x = f32::from_bits(plane_flags);
-            } else {
-                plane_flags = 3; // Custom normal
-
-                // Encode x component into the upper 30 bits
-                let x_encoded = (node.plane.normal.x * 32767.0) as i32;
-                plane_normal_x = f32::from_bits((x_encoded << 2 | plane_flags as i32) as u32);
+            // CAaBspNode: the plane is always orthogonal to an axis, which the low flag bits name
+            // (0 = YZ plane / X axis, 1 = XZ plane / Y axis, 2 = XY plane / Z axis); 4 marks a leaf
+            let normal = &node.plane.normal;
+            let mut flags: u16 = match node.get_axis_type() {
+                BspAxisType::X => 0,
+                BspAxisType::Y => 1,
+                BspAxisType::Z => 2,
+                BspAxisType::Other => {
+                    // Not representable in MOBN: fall back to the dominant axis
+                    let (x, y, z) = (normal.x.abs(), normal.y.abs(), normal.z.abs());
+                    warn!(
+                        "BSP node plane ({}, {}, {}) is not axis-aligned, using its dominant axis",
+                        normal.x, normal.y, normal.z
+                    );
+                    if x >= y && x >= z {
+                        0
+                    } else if y >= z {
+                        1
+                    } else {
+                        2
+                    }
+                }
+            };
+            if node.is_leaf() {
+                flags |= 0x4;
             }
 
-            if plane_flags < 3 {
-                writer.write_u32_le(plane_flags)?;
-            } else {
-                writer.write_f32_le(plane_normal_x)?;
-            }
-
-            writer.write_f32_le(node.plane.distance)?;
-
+            // +0x00: flags, +0x02: negChild, +0x04: posChild, +0x06: nFaces,
+            // +0x08: faceStart (u32), +0x0C: planeDist
+            writer.write_u16_le(flags)?;
             writer.write_i16_le(node.children[0])?;
             writer.write_i16_le(node.children[1])?;
-
-            writer.write_u16_le(node.first_face)?;
             writer.write_u16_le(node.num_faces)?;
+            writer.write_u32_le(node.first_face as u32)?;
+            writer.write_f32_le(node.plane.distance)?;
         }
 
         Ok(())
